@@ -1,5 +1,5 @@
 //! C02 — only an intact issuer-signed JWT under the resolver's key is accepted (E2 tamper).
-use crate::codec::{self, b64_json, Fmt, Parts};
+use crate::codec::{self, b64_json, b64d, b64e, Fmt, Parts};
 use crate::drive::{self, Out};
 use crate::gen;
 use crate::keys::{self, Alg, Hk};
@@ -279,6 +279,28 @@ fn structural(b: &Base, all: &[Base], l: &mut Local) {
     for n in 1..s.len() {
         must_reject(b, &format!("{h}.{p}.{}", &s[..n]), &format!("structural:sig_truncated:{n}"), key.clone(), l);
     }
+    // 4b. the same signature value in another encoding: ASN.1 DER for ECDSA (what OpenSSL / hardware tokens emit),
+    // a leading / trailing zero byte, hex, standard base64 with padding — none of them is the signed text
+    if let Some(raw) = b64d(&s) {
+        let mut encs: Vec<(&str, String)> = vec![];
+        if raw.len() == 64 {
+            encs.push(("der", b64e(&tokens::ecdsa_der(&raw))));
+        }
+        let mut z = vec![0u8];
+        z.extend(&raw);
+        encs.push(("leading_zero_byte", b64e(&z)));
+        let mut z = raw.clone();
+        z.push(0);
+        encs.push(("trailing_zero_byte", b64e(&z)));
+        encs.push(("hex", raw.iter().map(|b| format!("{b:02x}")).collect()));
+        encs.push(("std_base64_padded", { use base64::Engine; base64::engine::general_purpose::STANDARD.encode(&raw) }));
+        encs.push(("twice", format!("{s}{s}")));
+        for (what, e) in encs {
+            if e != s {
+                must_reject(b, &format!("{h}.{p}.{e}"), &format!("structural:sig_reencoded:{what}"), key.clone(), l);
+            }
+        }
+    }
     // 5. alg rewritten
     let pubkeys: Vec<(&str, Vec<u8>)> = match b.cfg.alg {
         Alg::ES256 => vec![("pem", keys::EC_ISSUER_PUB.as_bytes().to_vec()), ("der", pem_der(keys::EC_ISSUER_PUB)), ("raw", pem_der(keys::EC_ISSUER_PUB)[26..].to_vec())],
@@ -482,30 +504,59 @@ fn kid_confusion(alg: Alg, fmt: Fmt, l: &mut Local) {
 /// resolver may select the key by any of them.
 fn header_passthrough(alg: Alg, fmt: Fmt, l: &mut Local) {
     use std::sync::{Arc, Mutex};
-    let hdr = json!({"alg": alg.name(), "typ": "sd+jwt", "cty": "c", "kid": "key-1", "jku": "https://i.example/jwks", "x5u": "https://i.example/cert", "x5t": "dGh1bWI", "x5t#S256": "dGh1bWIyNTY", "x5c": ["Y2VydA=="],
-        "jwk": {"kty": "EC", "crv": "P-256", "x": "TCAER19Zvu3OHF4j4W4vfSVoHIP1ILilDls7vCeGemc", "y": "ZxjiWWbZMQGHVWKVQ4hbSIirsVfuecCE6t4jT9F2HZQ"}});
-    let payload = json!({"iss": gen::ISS, "exp": gen::EXP, "a": 1, "_sd_alg": "sha-256"});
-    let jwt = tokens::sign_json(&hdr, &payload, tokens::jw_alg(alg), &keys::issuer_enc(alg, 0));
-    let expected = jsonwebtoken::decode_header(&jwt).map(|h| format!("{h:?}")).unwrap_or_default();
-    let tok = Parts { jwt, disclosures: vec![], kb: None }.serialize(fmt);
-    let seen = Arc::new(Mutex::new(String::new()));
-    let s2 = seen.clone();
-    l.evals += 1;
-    let out = drive::verify_with(&tok, Box::new(move |_iss, h| {
-        *s2.lock().unwrap() = format!("{h:?}");
-        keys::issuer_dec(alg, 0)
-    }), None, None, fmt);
-    let case = json!({"kind": "c02_header", "alg": alg.name(), "fmt": fmt.name()});
-    let got = seen.lock().unwrap().clone();
-    if !out.is_ok() {
-        l.violation(Violation::new("verify", if out.is_panic() { "panic" } else { "err_where_ok_required" }, "c02_rich_header_control", "rich_header", out.describe(), case.clone()));
-    } else {
-        l.outcome("control_accepted");
-    }
-    if got != expected {
-        l.violation(Violation::new("verify", "wrong_resolver_call", "c02_resolver_header_argument", "rich_header", format!("resolver received {got}; the token's header is {expected}"), case));
-    } else {
-        l.nontrivial += 1;
+    // (iss, kid) pairs in which the kid is itself an identifier related to the issuer's: a DID URL of the issuer,
+    // a DID URL of a party whose DID extends the issuer's, a key URL below / beside the issuer's URL, a prefix twin
+    let pairs: [(&str, &str); 9] = [
+        (gen::ISS, "key-1"),
+        ("did:web:issuer.example", "did:web:issuer.example#key-1"),
+        ("did:web:issuer.example", "did:web:issuer.example:users:mallory#key-1"),
+        ("did:web:issuer.example", "did:web:issuer.example.evil.example#key-1"),
+        ("https://i.example", "https://i.example/keys/1"),
+        ("https://i.example", "https://i.example.evil.example/keys/1"),
+        ("https://i.example", "https://evil.example/keys/1#https://i.example"),
+        ("a", "ab"),
+        ("issuer", "did:example:issuer#issuer"),
+    ];
+    for (iss, kid) in pairs {
+        let hdr = json!({"alg": alg.name(), "typ": "sd+jwt", "cty": "c", "kid": kid, "jku": "https://i.example/jwks", "x5u": "https://i.example/cert", "x5t": "dGh1bWI", "x5t#S256": "dGh1bWIyNTY", "x5c": ["Y2VydA=="],
+            "jwk": {"kty": "EC", "crv": "P-256", "x": "TCAER19Zvu3OHF4j4W4vfSVoHIP1ILilDls7vCeGemc", "y": "ZxjiWWbZMQGHVWKVQ4hbSIirsVfuecCE6t4jT9F2HZQ"}});
+        let payload = json!({"iss": iss, "exp": gen::EXP, "a": 1, "_sd_alg": "sha-256"});
+        let jwt = tokens::sign_json(&hdr, &payload, tokens::jw_alg(alg), &keys::issuer_enc(alg, 0));
+        let expected = jsonwebtoken::decode_header(&jwt).map(|h| format!("{h:?}")).unwrap_or_default();
+        let tok = Parts { jwt, disclosures: vec![], kb: None }.serialize(fmt);
+        let seen = Arc::new(Mutex::new((String::new(), String::new())));
+        let s2 = seen.clone();
+        let iss_owned = iss.to_string();
+        l.evals += 1;
+        // the issuer's key is registered under the issuer's identifier only; anyone else gets another key
+        let out = drive::verify_with(&tok, Box::new(move |i, h| {
+            *s2.lock().unwrap() = (i.to_string(), format!("{h:?}"));
+            if i == iss_owned { keys::issuer_dec(alg, 0) } else { keys::issuer_dec(alg, 1) }
+        }), None, None, fmt);
+        let case = json!({"kind": "c02_header", "alg": alg.name(), "fmt": fmt.name(), "iss": iss, "kid": kid});
+        let (got_iss, got_hdr) = seen.lock().unwrap().clone();
+        if !out.is_ok() {
+            l.violation(Violation::new("verify", if out.is_panic() { "panic" } else { "err_where_ok_required" }, "c02_rich_header_control", "rich_header", out.describe(), case.clone()));
+        } else {
+            l.outcome("control_accepted");
+        }
+        if got_hdr != expected {
+            l.violation(Violation::new("verify", "wrong_resolver_call", "c02_resolver_header_argument", "rich_header", format!("resolver received {got_hdr}; the token's header is {expected}"), case.clone()));
+        } else if got_iss != iss {
+            l.violation(Violation::new("verify", "wrong_resolver_call", "c02_resolver_iss_argument", "rich_header", format!("resolver was asked for {got_iss:?}; the token's iss is {iss:?} (kid {kid:?})"), case.clone()));
+        } else {
+            l.nontrivial += 1;
+        }
+        // the same token signed by the other party's key (registered under every identifier but the issuer's) is rejected
+        let jwt2 = tokens::sign_json(&hdr, &payload, tokens::jw_alg(alg), &keys::issuer_enc(alg, 1));
+        let tok2 = Parts { jwt: jwt2, disclosures: vec![], kb: None }.serialize(fmt);
+        let iss_owned = iss.to_string();
+        l.evals += 1;
+        let out2 = drive::verify_with(&tok2, Box::new(move |i, _h| if i == iss_owned { keys::issuer_dec(alg, 0) } else { keys::issuer_dec(alg, 1) }), None, None, fmt);
+        match &out2 {
+            Out::Err { .. } => l.outcome("rejected"),
+            o => l.violation(Violation::new("verify", if o.is_panic() { "panic" } else { "ok_where_err_required" }, "c02_foreign_key_selected_through_kid", "rich_header", format!("token claiming iss {iss:?} with kid {kid:?}, signed by another party's key: {}", o.describe()), case)),
+        }
     }
 }
 
